@@ -14,8 +14,7 @@ configs = sys.argv[1:] or ['A', 'B', 'C', 'D', 'P']
 gi, ei, ci, mi, wi = {}, {}, {}, {}, {}
 gp, ep = os.path.join(TABLES, 'guard_inventory.json'), os.path.join(TABLES, 'err_inventory.json')
 cp_, mp_ = os.path.join(TABLES, 'condition_inventory.json'), os.path.join(TABLES, 'mustpass_inventory.json')
-if os.path.exists(gp):
-    gi = json.load(open(gp)); ei = json.load(open(ep))
+
 wp_ = os.path.join(TABLES, 'wiring_inventory.json')
 if os.path.exists(cp_):
     ci = json.load(open(cp_)); mi = json.load(open(mp_))
@@ -23,8 +22,11 @@ if os.path.exists(wp_):
     wi = json.load(open(wp_))
 for c in configs:
     P = engine.load_prog(c)
-    gi[c] = guard_inventory(P, r'.')
-    ei[c] = err_inventory(P, r'.')
+    files = all_anchor_files()
+    gg = guard_inventory(P, files)
+    gi[c] = {fl: {k: {'n': n, 'fns': guard_inventory.hints[fl][k]} for k, n in d.items()} for fl, d in gg.items()}
+    ee = err_inventory(P, files)
+    ei[c] = {fl: {k: {'n': n, 'fns': err_inventory.hints[fl][k]} for k, n in d.items()} for fl, d in ee.items()}
     files = all_anchor_files()
     owner_file = {}
     for f in fns_in_files(P, files):
@@ -38,8 +40,7 @@ for c in configs:
     wi[c] = {fl: {k: {'n': n, 'fns': wiring_inventory.hints[fl][k]} for k, n in d.items()} for fl, d in ww.items()}
     print(c, 'wirings', sum(len(v) for v in wi[c].values()))
     print(c, 'conditions', sum(len(v) for v in ci[c].values()), 'must-pass callees', sum(len(v['callees']) for v in mi[c].values()))
-    print(c, 'functions with guards', len(gi[c]), 'guards', sum(sum(v.values()) for v in gi[c].values()),
-          'functions constructing errors', len(ei[c]), 'constructions', sum(len(v) for v in ei[c].values()))
+    print(c, 'guards', sum(x['n'] for v in gi[c].values() for x in v.values()), 'error constructions', sum(x['n'] for v in ei[c].values() for x in v.values()))
 os.makedirs(TABLES, exist_ok=True)
 json.dump(gi, open(gp, 'w'), indent=1, sort_keys=True)
 json.dump(ei, open(ep, 'w'), indent=1, sort_keys=True)
